@@ -1,6 +1,7 @@
 import OPM.Model.Merge
 import OPM.Lemmas.Interp
 import OPM.Properties.C01
+import OPM.Lemmas.InterpC14
 /-!
 # C14 Injected code runs once in the current scope, even across edits
 
@@ -62,6 +63,49 @@ theorem inject_registers_once (p : Prog) (s : St) (n : Nat) (hn : ¬ s.imap.any 
   · show _ + 1 = _
     rw [h2]
 
+/-! ## running the injected code: frame and "at most once", lifted over micro-steps -/
+
+/-- **Frame of a running snippet.** Let `D` be a set of nodes closed under children, all of whose nodes
+    are Mark / Wait / UOD command / Notify-like / blank lines or the injected wrapper.  Running a
+    generator whose frames belong to `D` to its next `EndTick` — from *any* state — changes no runtime
+    record outside `D` (no method line becomes started, completed, failed, cancelled …), registers and
+    unregisters no interrupt, no macro, leaves block tag, base unit and all generators alone, and its
+    stack stays in `D` (induction over the micro-steps).  What it may change: the records of `D`, the
+    Mark tag, the event log, the error slot. -/
+theorem neutral_snippet_subtick_frame (p : Prog) (D : Nat → Bool)
+    (hkind : ∀ k, D k = true → neutralKind (node p k).kind = true)
+    (hclosed : ∀ k, D k = true → ∀ c ∈ (node p k).children, D c = true)
+    (fuel : Nat) (s : St) (stack : List Frame) (h : ∀ g ∈ stack, frameIn D g = true) :
+    Outside D s (runGen p fuel s stack).1 ∧ ∀ g ∈ (runGen p fuel s stack).2.1, frameIn D g = true :=
+  runGen_neutral p D hkind hclosed fuel s stack h
+
+/-- Injection followed by the first sub-tick of the injected generator: method records untouched. -/
+theorem inject_and_first_subtick_keep_method_flags (p : Prog) (D : Nat → Bool) (n : Nat)
+    (hD : ∀ k ∈ n :: descendants p n, D k = true)
+    (hkind : ∀ k, D k = true → neutralKind (node p k).kind = true)
+    (hclosed : ∀ k, D k = true → ∀ c ∈ (node p k).children, D c = true)
+    (fuel : Nat) (s : St) (k : Nat) (hk : D k = false) :
+    ((runGen p fuel (inject p s n) [.wrapEnter n]).1.rt k) = s.rt k := by
+  have hn : D n = true := hD n List.mem_cons_self
+  have h1 := (runGen_neutral p D hkind hclosed fuel (inject p s n) [.wrapEnter n]
+    (by intro g hg; simp only [List.mem_cons, List.mem_nil_iff, or_false] at hg; subst hg
+        simpa [frameIn, frameNode] using hn)).1.rt k hk
+  rw [h1]
+  apply inject_keeps_method_flags
+  intro hmem
+  rw [hD k hmem] at hk
+  cases hk
+
+/-- **At most once per registration.** In a program without `Call macro` whose nodes are numbered in
+    tree order, the generator that `inject` registers for the injected wrapper `n` (it starts as
+    `[wrapEnter n]`) starts the injected body at most once in its whole life — whatever the other
+    generators, requests, tag values and pauses (ticks that do not happen) do in between: the states
+    between its micro-steps are universally quantified. -/
+theorem injected_body_starts_at_most_once (p : Prog) (n : Nat)
+    (hnc : noCalls p = true) (hord : ordered p = true) (hn : isInjected p n = true) (ss : List St) :
+    genStartsI p n ss [.wrapEnter n] ≤ 1 :=
+  genStartsI_early p n hnc hord hn ss _ (Or.inl rfl)
+
 /-- The clause about edits, over the model: an interrupt that is registered before an accepted live
     edit is still registered (under the same line id) afterwards. -/
 def C14_full_edit : Prop :=
@@ -99,6 +143,61 @@ theorem C14_counterexample : ¬ C14_full_edit := by
   intro h
   have := h wMM wNew (by decide +kernel) (2, 1) (by decide +kernel)
   revert this
+  decide +kernel
+
+/-! Non-vacuity: the witness program (`Wait: 2s` + injected `Mark: inj`, nodes 2 and 3). -/
+
+def wD : Nat → Bool := fun k => k == 2 || k == 3
+
+example : (∀ k ∈ 2 :: descendants wProg 2, wD k = true) ∧ noCalls wProg = true ∧ ordered wProg = true ∧
+    isInjected wProg 2 = true := by decide +kernel
+
+example : ∀ k, wD k = true → neutralKind (node wProg k).kind = true := by
+  intro k hk
+  have : k = 2 ∨ k = 3 := by simpa [wD] using hk
+  rcases this with e | e <;> subst e <;> decide +kernel
+
+example : ∀ k, wD k = true → ∀ c ∈ (node wProg k).children, wD c = true := by
+  intro k hk
+  have : k = 2 ∨ k = 3 := by simpa [wD] using hk
+  rcases this with e | e <;> subst e <;> decide +kernel
+
+def wTicksFrom (s : St) (from_ n : Nat) : St :=
+  (List.range n).foldl (fun s i => (tick wProg s ⟨(from_ + i : Nat) / 8, (from_ + i : Nat) / 8, 0, []⟩).1) s
+
+/-- the injected code of the witness does run — once — when nothing interferes: five ticks later the
+    Mark tag is `inj`, the wrapper has completed, and node 1 (the method's `Wait`) is as in the run
+    without the injection -/
+example :
+    (wTicksFrom wSt 3 5).marks = ["inj"] ∧ ((wTicksFrom wSt 3 5).rt 2).completed = true ∧
+    (wTicksFrom wSt 3 5).rt 1 = (wTicksFrom (init wProg) 0 8).rt 1 := by
+  decide +kernel
+
+/-! ## as-is: an injected Block never ends
+
+`End block` / `End blocks` look for locked blocks among the nodes of the *program*
+(`lockedBlocks`: `inProgram`); an injected Block is not one of them.  Method `Wait: 2s`; injected
+`Block: Q / Mark: i1 / End block` (nodes 2–5).  Sixty ticks later the Mark has been set, `End block`
+has completed, and the Block still holds its lock, is not completed, the Block tag still reads `Q`
+and the injected wrapper has not completed. -/
+
+def bProg : Prog := #[
+  { kind := .program, parent := none, children := [1], threshold := none, keyPath := [0] },
+  { kind := .wait 2, parent := some 0, children := [], threshold := none, keyPath := [0, 1] },
+  { kind := .injected, parent := none, children := [3], threshold := none, keyPath := [9], inProgram := false },
+  { kind := .block "Q", parent := some 2, children := [4, 5], threshold := none, keyPath := [9, 1], inProgram := false },
+  { kind := .mark "i1", parent := some 3, children := [], threshold := none, keyPath := [9, 1, 1], inProgram := false },
+  { kind := .endBlock, parent := some 3, children := [], threshold := none, keyPath := [9, 1, 2], inProgram := false }]
+
+def bRun (n : Nat) : St :=
+  let s := (List.range 3).foldl (fun s i => (tick bProg s ⟨(i : Nat) / 8, (i : Nat) / 8, 0, []⟩).1) (init bProg)
+  (List.range n).foldl (fun s i => (tick bProg s ⟨(3 + i : Nat) / 8, (3 + i : Nat) / 8, (i : Nat) / 8, []⟩).1)
+    (inject bProg s 2)
+
+theorem C14_witness_injected_block_never_ends :
+    (bRun 60).marks = ["i1"] ∧ ((bRun 60).rt 5).completed = true ∧
+    ((bRun 60).rt 3).lockAcquired = true ∧ ((bRun 60).rt 3).completed = false ∧
+    (bRun 60).blockTag = some "Q" ∧ ((bRun 60).rt 2).completed = false := by
   decide +kernel
 
 /-- As-is behaviour: whatever is registered after a merge stems from an old interrupt whose line id
